@@ -10,6 +10,9 @@ import Anko.Proofs.Chan
 import Anko.Gen.ChanOps
 import Anko.Gen.ChanFlow
 import Anko.Props.ChanFlowTable
+import Anko.Props.Tie.ChanFlow
+import Anko.Props.Tie.StmtFlow
+import Anko.Props.Tie.CallFlow
 
 namespace Anko.C16
 open Anko.Chan
@@ -172,6 +175,17 @@ Every leaf statement of invokeChanExpr (receive, send, forward), runChanStmt (th
 conditions it stands under, is the one written down in Props/ChanFlowTable next to Model/Chan: every blocking operation is a select that watches the
 context, a receive from a closed and drained channel yields nil / false, the element is converted to the channel's element type before the send. Any edit of these functions - also a harmless one - breaks this obligation by name; the check then
 searches model and implementation for a failing input (DESIGN.md 13.3). -/
-theorem channel_forms_are_the_modelled_ones : Gen.ChanFlow.leaves = Tables.chanFlow := by decide +kernel
+theorem channel_forms_are_the_modelled_ones : Gen.ChanFlow.leaves = Tables.chanFlow := Tie.chanFlow
+
+/-! ### Shared source ties
+
+The code this property is anchored in is also written down, leaf statement by leaf statement, by the tables below (each decided once in
+Props/Tie, `decide +kernel`, against the table regenerated from /repo on this run). A change of that code breaks the tie by name here too, and the check of
+this property then searches for a failing input - so a change that breaks this property through code whose primary table belongs to another
+property is not overlooked. -/
+/-- the branch, loop, try and defer functions (vmStmt.go) -/
+theorem source_tie_StmtFlow : Gen.StmtFlow.leaves = Tables.stmtFlow := Tie.stmtFlow
+/-- the call machinery (vmExprFunction.go) -/
+theorem source_tie_CallFlow : Gen.CallFlow.leaves = Tables.callFlow := Tie.callFlow
 
 end Anko.C16
